@@ -160,6 +160,45 @@ func init() {
 					}
 				}
 			}
+			// whole destination paths: longer than 255 bytes (ordinary components), below a dot-named top-level directory
+			longDir := "/etc"
+			for len(longDir) < 280 {
+				longDir += "/component-" + fmt.Sprint(len(longDir))
+			}
+			for _, dst := range []string{longDir + "/app.conf", longDir[:240] + "/x.conf", "/.app/settings.conf", "/.config", "/..conf/..x", "/etc/.hidden/.x.conf", "./.rel/x.conf"} {
+				for _, typ := range []string{"config", "config|noreplace", "config|missingok", "ghost", "doc", "license", "readme", ""} {
+					e := c08Entry(typ, "", 1, false)
+					e.Dst = dst
+					if !yield(C08Case{Part: "paths", List: []model.Entry{e, c08Entry("config", "", 2, false)}}) {
+						return
+					}
+				}
+			}
+			// file_info that states only some of its fields (the others take the documented defaults)
+			for _, typ := range c08Types {
+				for mask := 1; mask < 16; mask++ {
+					e := c08Entry(typ, "", 1, false)
+					e.HasInfo = true
+					if mask&1 != 0 {
+						e.Owner = "app"
+					}
+					if mask&2 != 0 {
+						e.Group = "grp"
+					}
+					if mask&4 != 0 {
+						e.MTime = EntryMTime
+					}
+					if mask&8 != 0 {
+						e.Mode = 0o600
+						if typ == "dir" || typ == "tree" {
+							e.Mode = 0o700
+						}
+					}
+					if !yield(C08Case{Part: "partial-info", List: []model.Entry{e, c08Entry("", "", 2, false)}}) {
+						return
+					}
+				}
+			}
 			if env.Thorough() {
 				// every ordered triple of entry types
 				for _, a := range c08Types {
